@@ -6,6 +6,7 @@ import Driver.San
 import Driver.Broker
 import Driver.Hub
 import Driver.Shutdown
+import Driver.Dot
 open Driver
 
 /-
@@ -22,5 +23,6 @@ def main (args : List String) : IO UInt32 := do
   | ["broker"] => runLoop brokerStep {}
   | ["hub"] => Driver.HubMode.main
   | ["shutdown"] => runLoop (fun (_ : Unit) toks => ((), shutdownHandler toks)) ()
+  | ["dot"] => runLoop Driver.Dot.step ()
   | _ => IO.eprintln s!"unknown mode {args}"; return 2
   return 0
